@@ -242,6 +242,7 @@ package xmpp
 //@   assigns senderQueue(s).Uslice, p.(*stanza.IQ).Type, p.(*stanza.IQ).From, p.(*stanza.IQ).To, p.(*stanza.IQ).Error
 //@   elems r.IQResultRoutes
 //@   emits HandlePacket, Send, SendAttrs, SendRaw, Write, ChanSend, Close
+//@   at call SendMissingStz assert [C10.route.h] typeof(p) == stanza.SMAnswer && typeof(s) == *Client && ($lastSent == p.(stanza.SMAnswer).H || p.(stanza.SMAnswer).H >= 9223372036854775808) && $uaq == s.(*Client).Session.SMState.UnAckQueue && $s == s
 
 // ---------------------------------------------------------------------------
 // C16: component handshake
